@@ -39,6 +39,17 @@ _RC = [
         "tcp_ff_runs", "tcp_truncated_iac_at_close", "tcp_rst_close", "tcp_half_close", "tcp_abrupt_close", "tcp_probe_calls_required_and_checked", "tcp_prompt_checks",
         "tcp_liveness_probe_ok", "tcp_cases_over_loopback_tcp", "tcp_cases_over_unix_socket",
 ]
+_RC += [
+    # teardown through the real front ends, what follows the ending placed in the loop iteration right after it (service leg)
+    "sessions_ended_by_exit_then_more_bytes_in_next_pass", "sessions_ended_by_exit_then_client_close_in_next_pass",
+    "sessions_ended_by_exit_then_client_reset_in_next_pass", "sessions_ended_by_exit_then_client_half_close_in_next_pass",
+    "sessions_ended_by_exit_then_more_bytes_without_a_pass_between", "sessions_ended_by_exit_then_more_bytes_two_or_more_passes_later",
+    "service_end_with_more_bytes_in_same_write", "sessions_ended_by_command_node", "sessions_ended_by_command_node_then_more_bytes_in_next_pass",
+    "sessions_ended_by_command_node_then_more_bytes_without_a_pass_between", "sessions_ended_by_command_node_then_client_close_in_next_pass",
+    "service_exit_sessions_disconnected_by_server", "service_other_sessions_still_working", "service_probe_replies_checked",
+    "service_endings_over_telnet", "service_endings_over_tcprpc", "service_cases_over_loopback_tcp", "service_cases_over_unix_socket",
+    "service_bystander_sessions", "tcp_loop_iterations",
+]
 _RC_FUZZ = ["fuzz_execs_direct", "fuzz_execs_telnet", "fuzz_sessions_ended_by_exit", "fuzz_tree_cycle_markers", "fuzz_tree_deleted_markers",
             "fuzz_error_replies", "fuzz_inputs_with_iac", "fuzz_inputs_with_escape", "fuzz_probe_calls", "fuzz_liveness_ok"]
 
@@ -54,6 +65,9 @@ PROP = dict(
         # closed TCP connections park ephemeral ports in TIME_WAIT for 60 s and the thorough volume would drain the range
         _leg("telnet", 3000, 0),
         _leg("tcprpc", 2000, 0),
+        # session teardown through both front ends: 8-24 sessions per case, what follows `exit` is placed an exact number of loop passes later
+        _leg("service", 3000, 0, args=["--watchdog", "30", "--tcp-every", "16"]),
+        _leg("service-thorough", 0, 150000, mode="service", args=["--watchdog", "30", "--tcp-every", "200"]),
         _leg("telnet-thorough", 0, 500000, mode="telnet", args=["--watchdog", "30", "--tcp-every", "40"]),
         _leg("tcprpc-thorough", 0, 300000, mode="tcprpc", args=["--watchdog", "30", "--tcp-every", "40"]),
         # coverage-guided: one case = one libFuzzer session of 50000 runs (40 sessions = 2 M runs), see harness/c13_fuzz.cpp
@@ -82,6 +96,14 @@ PROP = dict(
           "(keys unsplit, telnet commands DO/DONT/WILL/WONT/NOP/GA/SB NAWS/SB TTYPE/IAC IAC cut anywhere) are checked for probe invocations (reply markers in the byte stream), "
           "one prompt per Enter plus the greeting, one WONT per DONT, one NOP per NOP, Bye + EOF after exit; hostile clients send IAC soup, unterminated / nested / short SB blocks, "
           "0xFF runs, 60 KB lines, repeated exit, then half-close / close / RST; finally a fresh client's command must be executed. "
+          "service: one loop carrying Terminal + Telnetd + TcpRpc together (loopback TCP every 16th case, unix-domain sockets otherwise) and 8-24 scripted sessions, up to 4 "
+          "connected at once, a third of the cases ending sessions by exit/quit only, a third only through a command node that calls Session::endSession(), a third mixed; "
+          "what the client does after the ending write - more bytes (text, telnet DO/NOP/SB, a second exit, single bytes one per iteration), close, half-close, RST, nothing - "
+          "goes out in the same write, in a separate write with no loop iteration between, or exactly 1, 2 or 3 iterations later; sessions that never end (bystanders) and a "
+          "newcomer on each front end must still get a command executed at the end; every session that asked to end must see the server close the connection; the commands sent "
+          "before the ending must have been executed. In service, telnet and tcprpc the loop runs in Mode::kForever on a helper thread and hands control to the (sequential) "
+          "scenario once per iteration, from the first task of the run-next phase - runLoop(kOnce) would drain the deferred tasks after every pass and hide the iteration "
+          "between `exit` and the deferred disconnect. An exception that leaves runLoop is a violation keyed by type and by the kind of session being torn down. "
           "fuzz (thorough): 40 libFuzzer sessions of 50000 runs (clang ASan+UBSan, fixed dictionary of commands, escape sequences and telnet codes, inputs <= 192 bytes cut "
           "into length-prefixed segments with optional loop passes) against onRecvString on a Terminal with a cyclic, partly deleted node tree and against Telnetd over a "
           "unix-domain socket; every 256th input a fresh client must get `/p 42 'x y'` executed exactly. "
@@ -102,6 +124,7 @@ PROP = dict(
         "SIGPIPE is ignored by the harness, as cpp-tbox's own main module catches it; a server write to a connection the client has reset is otherwise a process-level signal matter",
         "client-side TCP_NODELAY and TCP_QUICKACK keep loopback delivery synchronous with the loop passes; if a reply is still missing the harness keeps turning the loop for up to "
         "2 s of real time before it judges the content (counter tcp_settle_waits_10ms, normally absent)",
+        "the service leg's command node (s.send(); s.endSession()) is ordinary use of the public Session API; the node does not send after endSession() itself",
         "deleteSession from the transport while an exit is still queued for that session is not generated (neither TCP front end can produce it); the proposed fix covers it anyway",
         "the libFuzzer leg (thorough tier) has no reference model: it judges crashes, sanitizer reports, uncaught exceptions, endless output, liveness answers of "
         "onRecvString, sends to torn-down sessions and a periodic probe command only; its telnet target runs over a unix-domain socket",
